@@ -228,8 +228,31 @@ func (p *PF) run(fn *ssa.Function, entry StateSet, visit func(fn *ssa.Function, 
 			// its constant selects, instead of being merged with the others first
 			if consts, pol, ok := flagTestBlock(b); ok && len(edgeIn[b.Index]) == len(b.Preds) {
 				var t StateSet
+				fphi := flagPhiOf(b)
 				for pi := range b.Preds {
-					if consts[pi] == nil || (*consts[pi] == pol) == (idx == 0) {
+					if consts[pi] == nil {
+						// the flag takes the value of a condition on this edge (`clean := a || (b && c)`): following the
+						// successor means that condition had the value that selects it
+						st := edgeIn[b.Index][pi]
+						if p.Edge != nil && fphi != nil && pi < len(fphi.Edges) {
+							if bt, isB := fphi.Edges[pi].Type().Underlying().(*types.Basic); isB && bt.Kind() == types.Bool {
+								for _, g := range expandGuard(guard{cond: fphi.Edges[pi], val: pol == (idx == 0), blk: b.Preds[pi]}, 0) {
+									var out StateSet
+									st.each(func(q int) {
+										if ns, ok := p.Edge(fn, g, q); ok {
+											out |= ns
+										} else {
+											out |= ss(q)
+										}
+									})
+									st = out
+								}
+							}
+						}
+						t |= st
+						continue
+					}
+					if (*consts[pi] == pol) == (idx == 0) {
 						t |= edgeIn[b.Index][pi]
 					}
 				}
@@ -498,6 +521,27 @@ func flagTestBlock(b *ssa.BasicBlock) ([]*bool, bool, bool) {
 		}
 	}
 	return consts, pol, any
+}
+
+// flagPhiOf: the boolean phi that b (a flagTestBlock) branches on.
+func flagPhiOf(b *ssa.BasicBlock) *ssa.Phi {
+	iff, ok := b.Instrs[len(b.Instrs)-1].(*ssa.If)
+	if !ok {
+		return nil
+	}
+	v := iff.Cond
+	for {
+		if u, ok := v.(*ssa.UnOp); ok && u.Op == token.NOT && u.Block() == b {
+			v = u.X
+			continue
+		}
+		break
+	}
+	phi, _ := v.(*ssa.Phi)
+	if phi != nil && phi.Block() != b {
+		return nil
+	}
+	return phi
 }
 
 func predIndexOf(succ, pred *ssa.BasicBlock, succIdx int) int {
